@@ -26,6 +26,15 @@ TABLES = pathlib.Path(__file__).resolve().parent.parent / "tables"
 
 
 # --------------------------------------------------------------------------- R1
+def _resolve_local(fn_node, e):
+    """a name bound once in the function -> its value (one step)"""
+    if isinstance(e, ast.Name):
+        ds = [x for x in walk_no_nested(fn_node) if isinstance(x, ast.Assign) and isinstance(x.targets[0], ast.Name) and x.targets[0].id == e.id]
+        if len(ds) == 1:
+            return ds[0].value
+    return e
+
+
 def rule_r1(ctx) -> List[R.Inst]:
     M = ctx.M
     rid = "C07.R1"
@@ -117,7 +126,9 @@ def rule_r1(ctx) -> List[R.Inst]:
     for n in walk_no_nested(rm.node):
         if isinstance(n, ast.Call) and call_name(n) == "unpack" and len(n.args) == 2:
             a0, a1 = n.args
-            le = isinstance(a0, ast.BinOp) and isinstance(a0.left, ast.Constant) and a0.left.value == "<"
+            le = (isinstance(a0, ast.BinOp) and isinstance(a0.left, ast.Constant) and a0.left.value == "<") or \
+                 (isinstance(a0, ast.JoinedStr) and a0.values and isinstance(a0.values[0], ast.Constant) and
+                  str(a0.values[0].value).startswith("<"))
             if isinstance(a1, ast.Subscript) and isinstance(a1.slice, ast.Slice) and a1.slice.lower is not None and \
                     a1.slice.upper is not None:
                 w = sym.canon(a1.slice.upper) - sym.canon(a1.slice.lower)
@@ -125,6 +136,36 @@ def rule_r1(ctx) -> List[R.Inst]:
                        unparse(x.target) == unparse(a1.slice.lower)]
                 if le and adv and w.same(sym.canon(adv[0].value)):
                     loop_ok = True
+                if not adv and isinstance(a1.slice.lower, ast.Name):
+                    # comprehension form: [unpack(.., b[i:i + W]) for i in range(START, END, W)] ; START = END
+                    iv = a1.slice.lower.id
+                    comp = next((c for c in ast.walk(rm.node) if isinstance(c, (ast.ListComp, ast.GeneratorExp)) and len(c.generators) == 1 and
+                                 isinstance(c.generators[0].target, ast.Name) and c.generators[0].target.id == iv and
+                                 any(x is n for x in ast.walk(c.elt))), None)
+                    rng = comp.generators[0].iter if comp is not None else None
+                    if isinstance(rng, ast.Call) and call_name(rng) == "range" and len(rng.args) == 3 and not comp.generators[0].ifs:
+                        start, end, step = rng.args
+                        # the cursor is moved to the end of the range after the comprehension
+                        moved = [x for x in walk_no_nested(rm.node) if isinstance(x, ast.Assign) and unparse(x.targets[0]) == unparse(start)
+                                 and unparse(x.value) == unparse(end)] or \
+                                [x for x in walk_no_nested(rm.node) if isinstance(x, ast.AugAssign) and isinstance(x.op, ast.Add) and
+                                 unparse(x.target) == unparse(start) and
+                                 (sym.canon(x.value) + sym.canon(start)).same(sym.canon(_resolve_local(rm.node, end)))]
+                        if not (le and w.same(sym.canon(step)) and moved):
+                            why = [] if le else ["not little-endian"]
+                            if not w.same(sym.canon(step)):
+                                why.append(f"slices are {unparse(a1.slice.upper)} - {unparse(a1.slice.lower)} wide but the cursor steps by {unparse(step)}")
+                            if not moved:
+                                why.append(f"the cursor '{unparse(start)}' is not moved to the end of the field ('{unparse(end)}')")
+                            insts.append(R.viol(rid, "unpack-loop", file, n.lineno,
+                                                "the header cursor must advance by exactly the width of the slice it unpacked, little-endian: "
+                                                + "; ".join(why), construct=unparse(n)))
+                        else:
+                            insts.append(R.ok(rid, "unpack-loop", file, n.lineno,
+                                              idiom="little-endian, range steps by the slice width, cursor moved to the end of the range"))
+                        continue
+                    insts.append(R.undec(rid, "unpack-loop", file, n.lineno, "cursor discipline of the header unpack not recognised"))
+                    continue
                 insts.append(R.ok(rid, "unpack-loop", file, n.lineno, idiom="little-endian, cursor advances by the width it reads")
                              if loop_ok else
                              R.viol(rid, "unpack-loop", file, n.lineno,
